@@ -122,7 +122,9 @@ impl Validator {
                 }
             }
             if self.has_constraint_reference(&key) {
-                match self.tlds.remove(&key).ok_or_else(|| LinkerError {
+                // The definition stays visible while it is linked, so that a constraint can refer
+                // to the named numbers of its own type (`INTEGER { lo(1), hi(9) } (lo..hi)`)
+                match self.tlds.get(&key).cloned().ok_or_else(|| LinkerError {
                     pdu: Some(key.clone()),
                     details: "Could not find toplevel declaration to remove!".into(),
                     kind: LinkerErrorType::MissingDependency,
